@@ -98,10 +98,17 @@ func docModel(t *Terminal) (*elemM, []string) {
 				if m := byKey[e.Args[0].Key()]; m != nil {
 					m.Text = e.Args[1]
 				}
-			case "(*etree.Element).CreateText", "(*etree.Element).CreateCharData", "(*etree.Element).CreateComment", "(*etree.Element).CreateDirective", "(*etree.Element).CreateProcInst",
-				"(*etree.Element).AddChild", "(*etree.Element).InsertChildAt", "(*etree.Element).CreateCData":
-				if m := byKey[e.Args[0].Key()]; m != nil {
-					problems = append(problems, "raw / untracked tree mutation "+shortName(e.Callee))
+			default:
+				// any other etree call that receives an element of the document under construction (CDATA, char data,
+				// comments, directives, foreign children, ...) is outside the escaping text / attribute API
+				if strings.HasPrefix(shortName(e.Callee), "(*etree.") && len(e.Args) > 0 {
+					if m := byKey[e.Args[0].Key()]; m != nil {
+						switch shortName(e.Callee) {
+						case "(*etree.Element).Copy", "(*etree.Element).Text", "(*etree.Element).SelectAttr", "(*etree.Element).SelectAttrValue", "(*etree.Element).Parent":
+						default:
+							problems = append(problems, "tree mutation outside the escaping API: "+shortName(e.Callee))
+						}
+					}
 				}
 			}
 		}
@@ -216,18 +223,19 @@ func checkChildren(c *Ctx, rule, fname, where, pos string, t *Terminal, atoms ma
 		}
 		if sp.Loop != "" {
 			// zero or one generic instance
-			through := atoms["(i* + 1) < len("+sp.Loop+")"] || atoms["i* < len("+sp.Loop+")"]
+			cls := loopShapeOf(atoms, sp.Loop)
+			through := cls.Gen
 			if through {
 				if gi < len(got) && got[gi].tagString() == sp.Tag && got[gi].InLoop {
 					ch := got[gi]
 					gi++
-					exhausted := atoms["!(((i* + 1) + 1) < len("+sp.Loop+"))"] || atoms["!((i* + 1) < len("+sp.Loop+"))"]
+					exhausted := cls.Exhausted
 					c.check(ch.Text != nil && ap(ch.Text) == sp.Loop+"[*]" && exhausted && loopStartsAtZero(t, sp.Loop), rule+"/wiring", fname, where+": one "+sp.Tag+" per element of "+sp.Loop, c.P.InstrPos(ch.Ev.Instr),
 						"text <- "+sp.Loop+"[*], whole slice in order", "children "+sp.Tag+" do not reproduce "+sp.Loop+" element by element in order (text="+ap(ch.Text)+")")
 				} else {
 					c.bad(rule+"/wiring", fname, where+": one "+sp.Tag+" per element of "+sp.Loop, pos, "generic iteration over "+sp.Loop+" creates no "+sp.Tag)
 				}
-			} else if !atoms["!(0 < len("+sp.Loop+"))"] {
+			} else if !cls.Zero {
 				c.bad(rule+"/wiring", fname, where+": one "+sp.Tag+" per element of "+sp.Loop, pos, "path does not iterate "+sp.Loop)
 			}
 			continue
@@ -522,7 +530,7 @@ func ruleC13(c *Ctx) {
 		return n == "dsig.NewSigningContext" || n == "dsig.NewDefaultSigningContext"
 	}
 	k := scanCalls(c.P, c.P.LibFns, isCtor, func(s callSite) {
-		c.check(shortFn(s.Caller) == "(*SAMLServiceProvider).SigningContext", "C13-R3", shortFn(s.Caller), "call "+shortName(s.Callee), c.P.InstrPos(s.Instr), "inside SigningContext", "signing context constructed outside SigningContext: key precedence / algorithm configuration not guaranteed")
+		c.check(c.P.withinOnly(s.Caller, allowNames("(*SAMLServiceProvider).SigningContext")), "C13-R3", shortFn(s.Caller), "call "+shortName(s.Callee), c.P.InstrPos(s.Instr), "inside SigningContext (or a helper only it calls)", "signing context constructed outside SigningContext: key precedence / algorithm configuration not guaranteed")
 	})
 	c.count("C13-R3/constructors", k)
 	c.floor("C13-R3/constructors", 2)
@@ -534,6 +542,30 @@ func ruleC13(c *Ctx) {
 	}
 	// R4
 	tableAgreement(c, "C13-R4", signingSelectors(c), 4)
+	// R5
+	c.rule("C13-R5", "what is signed survives serialisation: the builders fill the tree only through CreateElement / CreateAttr / SetText (escaped, canonicalisation-stable); no CDATA, raw character data, comments or foreign children (shared with C15-R1)")
+	n5 := 0
+	for _, ds := range docSpecs {
+		res := c.kernel(ds.Fn, builderInline...)
+		if res == nil {
+			continue
+		}
+		for _, t := range res.Terms {
+			if !t.accepting(res.Root) {
+				continue
+			}
+			n5++
+			_, problems := docModel(t)
+			if len(problems) == 0 {
+				c.ok("C13-R5", shortFn(res.Root), "escaping tree API only", c.P.InstrPos(t.Instr), "CreateElement / CreateAttr / SetText")
+			}
+			for _, p := range problems {
+				c.bad("C13-R5", shortFn(res.Root), p, c.P.InstrPos(t.Instr), p+": the digest computed over the in-memory tree differs from what the recipient re-parses")
+			}
+		}
+	}
+	c.count("C13-R5/builder-paths", n5)
+	c.floor("C13-R5/builder-paths", 6)
 }
 
 // ---------------------------------------------------------------- C18
